@@ -172,6 +172,37 @@ def check_c06(case):
     return ('fail' if out else 'ok'), out
 
 
+BAD_PREFIXES = ['2001:db8::/32', '2001:db8::/64', '::/0', '::1/128', 'fe80::/10', '2001:db8:1:2::/25', '10.0.0.0/33', '10.0.0.0/-1',
+                '256.1.1.1/8', '10.0.0.0', '', 'abc/8', '10.0.0.0/8/9', ' 10.0.0.0/8', '10.0.0.0/08', '0x0a000000/8', '10.0.0.0/255.0.0.0']
+
+
+@st.composite
+def invalid_prefix_case(draw):
+    """a valid C06 case in which one element of the nlri / withdraw list is not an IPv4 prefix: the message is refused
+    or, if the agent does build one, it is well formed"""
+    case = draw(c06.update_case())
+    bad = draw(st.sampled_from(BAD_PREFIXES))
+    where = draw(st.sampled_from(['nlri', 'withdraw']))
+    if where == 'nlri' and not case['attr']:
+        where = 'withdraw'
+    lst = list(case[where])
+    lst.insert(draw(st.integers(0, len(lst))), bad)
+    case[where] = lst
+    case['bad'] = bad
+    return case
+
+
+def check_invalid_prefix(case):
+    msg = c06.to_msg(case)
+    status, raw, out = construct_update(msg, case['asn4'], 'update')
+    if raw is None:
+        return status, out            # refused: fine
+    sk, out = walk(raw, case['asn4'], 'update')
+    if sk is None:
+        return 'fail', [('invalid-input:' + s, d) for s, d in out]
+    return 'ok', []
+
+
 def predicted_routes(facet, value):
     items = value.get('nlri') if 'nlri' in value else value.get('withdraw')
     out = []
@@ -403,6 +434,7 @@ session_case = st.fixed_dictionaries({
 
 KINDS = {
     'c06': (lambda: c06.update_case(), check_c06),
+    'invalid-prefix': (lambda: invalid_prefix_case(), check_invalid_prefix),
     'srte': (lambda: srte_case, check_srte),
     'pmsi': (lambda: pmsi_case, check_pmsi),
     'fs6': (lambda: fs6_case, check_fs6),
